@@ -608,6 +608,7 @@ def mutants(rnd, d):
     # 1 missing sections
     for k in ('name', 'initial', 'states'):
         out.append(('missing_' + k, [en for en in d if en[0] != k]))
+    out.append(('missing_everything', []))       # `state_machine! {}`
     # 2 unknown keys at four levels
     pos = rnd.randint(0, len(d))
     out.append(('unknown_top', d[:pos] + [('unknown', 'frobnicate')] + d[pos:]))
@@ -887,6 +888,16 @@ def fixtures():
         d = [('name', 'M'), ('initial', 'G1')] + ([('async', True)] if is_async else []) + \
             [('dynamic', True), ('states', big_forest), ('events', big_events)]
         out.append(d)
+    # more than 128 (state, event) edges: eighteen leaves under one superstate, eight events from the superstate, one from a leaf
+    many = ['N%d' % i for i in range(18)]
+    out.append([('name', 'M'), ('initial', 'N0'), ('dynamic', True),
+                ('states', [('super', 'All_', None, [('leaf', x, 'D2' if x == 'N3' else None) for x in many])]),
+                ('events', [_ev('v%d' % k, _tr(['All_'], many[(3 * k + 1) % 18])) for k in range(8)] + [_ev('only0', _tr(['N0'], 'N17'))])])
+    # states called like the Ruby DSL's keywords (capitalised as states are): sources, targets, superstate
+    out.append([('name', 'M'), ('initial', 'Idle'), ('dynamic', True),
+                ('states', [('leaf', 'Idle', None), ('leaf', 'Any', 'D0'), ('super', 'All', None, [('leaf', 'Same', None), ('leaf', 'Different', 'D1')]), ('leaf', 'Done', None)]),
+                ('events', [_ev('finish', _tr(['Any'], 'Done')), _ev('matched', _tr(['Idle', 'Different'], 'Same')),
+                            _ev('pick', _tr(['Idle'], 'Any'), _tr(['All'], 'Idle')), _ev('split', _tr(['Same'], 'Different'))])])
     # a superstate and a leaf whose names glue to the same string as another pair: "Power"+"OnHold" = "PowerOn"+"Hold"
     # (and "Power"+"On"... : a key made of an ancestor and a leaf must keep them apart)
     out.append([('name', 'M'), ('initial', 'Off'), ('dynamic', True),
